@@ -231,6 +231,7 @@ func TestC12Replay(t *testing.T) {
 
 // mapHandler is a plain in-memory handler that panics or fails at a chosen call.
 type mapHandler struct {
+	pkind  string // what to panic with: string | error | eof | runtime
 	mu     *sync.Mutex
 	m      map[string]tierItem
 	calls  *int
@@ -243,6 +244,15 @@ func (h mapHandler) enter() error {
 	*h.calls++
 	if h.failAt > 0 && *h.calls == h.failAt {
 		if h.panics {
+			switch h.pkind {
+			case "error":
+				panic(fmt.Errorf("injected error value: %w", errInjected))
+			case "eof":
+				panic(io.EOF) // e.g. a layer below doing panic(err) after a cut connection
+			case "runtime":
+				var m map[string]int
+				m["nil map"] = 1
+			}
 			panic("injected panic underneath")
 		}
 		return errInjected
@@ -384,7 +394,8 @@ type c12Full struct {
 	Multi  bool     `json:"multi"`
 	Binary bool     `json:"binary"`
 	Cmd    wire.Cmd `json:"cmd"`
-	Tier   string   `json:"tier"` // L1 | L2
+	PKind  string   `json:"panicValue"` // string | error | eof | runtime
+	Tier   string   `json:"tier"`       // L1 | L2
 	At     int      `json:"at"`
 	Preset bool     `json:"preset"`
 }
@@ -432,8 +443,8 @@ func runC12Full(c c12Full) string {
 		c1, c2 := 0, 0
 		lastCalls = [2]*int{&c1, &c2}
 		cl1, cl2 := false, false
-		h1 := mapHandler{mu: mu, m: m1, calls: &c1, closed: &cl1, panics: true}
-		h2 := mapHandler{mu: mu, m: m2, calls: &c2, closed: &cl2, panics: true}
+		h1 := mapHandler{mu: mu, m: m1, calls: &c1, closed: &cl1, panics: true, pkind: c.PKind}
+		h2 := mapHandler{mu: mu, m: m2, calls: &c2, closed: &cl2, panics: true, pkind: c.PKind}
 		if failTier == "L1" {
 			h1.failAt = failAt
 		} else if failTier == "L2" {
@@ -569,16 +580,18 @@ func TestC12FullPath(t *testing.T) {
 								n = n2
 							}
 							for at := 1; at <= n; at++ {
-								c := c12Full{Kind: "full", Orca: orca, Multi: multi, Binary: binary, Cmd: cmd, Tier: tier, At: at, Preset: preset}
-								if binary {
-									c.Cmd.Opaque = 0x100
-								}
-								msg := runC12Full(c)
-								rec.Case(true, fmt.Sprintf("full|%s|%v|%v|%s|%v|%s|%d", orca, multi, binary, cmd, preset, tier, at), "full-path-panic")
-								if msg != "" {
-									rp := rec.Violation("TestC12Replay", c)
-									t.Errorf("C12 full path orca=%s multi=%v binary=%v preset=%v: panic at %s call %d under %s: %s; replay %s", orca, multi, binary, preset, tier, at, cmd, msg, rp)
-									return
+								for _, pk := range []string{"string", "error", "eof", "runtime"} {
+									c := c12Full{Kind: "full", Orca: orca, Multi: multi, Binary: binary, Cmd: cmd, Tier: tier, At: at, Preset: preset, PKind: pk}
+									if binary {
+										c.Cmd.Opaque = 0x100
+									}
+									msg := runC12Full(c)
+									rec.Case(true, fmt.Sprintf("full|%s|%v|%v|%s|%v|%s|%d|%s", orca, multi, binary, cmd, preset, tier, at, pk), "full-path-panic", "panic-value:"+pk)
+									if msg != "" {
+										rp := rec.Violation("TestC12Replay", c)
+										t.Errorf("C12 full path orca=%s multi=%v binary=%v preset=%v: panic (%s value) at %s call %d under %s: %s; replay %s", orca, multi, binary, preset, pk, tier, at, cmd, msg, rp)
+										return
+									}
 								}
 							}
 						}
